@@ -220,7 +220,7 @@ def e2e_case(draw):
     s = draw(modal.system(1, 3, 3, 5, xi_lo=0.005, xi_hi=0.03, fr_lo=0.05, fr_hi=0.4))
     return {"sys": s, "alg": draw(st.sampled_from(["FDD", "EFDD", "FSDD", "FDD_MS"])), "nxseg": draw(st.sampled_from([256, 512])),
             "method": draw(st.sampled_from(["per", "cor"])), "N": draw(st.integers(6000, 9000)), "seed": draw(st.integers(0, 2**32 - 1)),
-            "DFl": draw(st.integers(2, 8))}
+            "DFl": draw(st.integers(2, 8)), "selperm": draw(st.integers(0, 2**16))}  # order (and repetition) of the selected frequencies
 
 
 def judge_e2e(case):
@@ -249,6 +249,13 @@ def judge_e2e(case):
     if not j.check(not raised(r), "e2e-run-raises", lambda: f"{r!r}"):
         return j
     sel = [float(f) for f in S.fn]
+    if case.get("selperm"):
+        # the user's picks in any order, one of them possibly twice
+        sel = [sel[i_] for i_ in rng_of(case["selperm"]).permutation(len(sel))]
+        if case["selperm"] % 3 == 0 and an in ("FDD", "FDD_MS"):
+            sel.append(sel[0])
+        if sel != sorted(set(sel)):
+            j.tag("picks-unsorted-or-repeated")
     if an in ("EFDD", "FSDD"):
         r2 = sut(setup.mpe, "a", sel_freq=sel, DF1=DF, DF2=4 * DF)
     else:
@@ -262,8 +269,9 @@ def judge_e2e(case):
     freq, Sy = np.asarray(res.freq), np.asarray(res.Sy)
     Phi = np.asarray(res.Phi)
     Fn = np.asarray(res.Fn)
-    if not j.check(Phi.shape == (Sy.shape[0], len(sel)), "e2e-phi-shape", lambda: f"{Phi.shape}"):
+    if not j.check(Phi.shape == (Sy.shape[0], len(sel)) and np.atleast_1d(Fn).shape == (len(sel),), "e2e-phi-shape", lambda: f"Phi {Phi.shape}, Fn {np.atleast_1d(Fn).shape} for {len(sel)} selected frequencies"):
         return j
+    Fn = np.atleast_1d(Fn)
     for q, s in enumerate(sel):
         if an in ("EFDD", "FSDD"):
             # the first stage picks the line; EFDD reports a refined frequency, so locate the picked line from the shape
